@@ -437,7 +437,40 @@ class X86Model(object):
             raise AnalysisError('_dis: ModRM pre-processing is outside the evaluable subset: %s' % e)
         return scope['c']
 
-    def dis_digit_reg_rejected(self, modifs, dibs):
+    def dis_rmr_reg_rejected(self, modifs, name):
+        """Does the reg,r/m branch of _dis return None when r/m is a register (guards right after the get_afs call)?"""
+        from .srcmodel import parent
+        self.dis_rmr_pre(modifs, 0xC0)          # locates the statements
+        if getattr(self, '_rmr_post', None) is None:
+            chain = self._dis_mmx_nodes()[0]
+            blk = parent(chain).body
+            post = []
+            seen = False
+            for st in blk:
+                if isinstance(st, ast.Assign) and 'get_afs(' in u(st.value) and 'get_afs_re' not in u(st.value):
+                    seen = True
+                    continue
+                if seen:
+                    if isinstance(st, ast.If) and st.body and isinstance(st.body[-1], ast.Return):
+                        post.append(st)
+                    else:
+                        break
+            self._rmr_post = post
+        m_ = Obj('m')
+        m_.modifs = dict(modifs)
+        m_.name = name
+        scope = dict((k, v) for k, v in self.env.items() if isinstance(v, (str, int, bool, list, tuple, dict)) or v is None)
+        scope.update({'m': m_, 'modr': {self.afs.ad: False}, 'x86_afs': self.afs})
+        ev = Evaluator(scope)
+        for g in self._rmr_post:
+            try:
+                if ev.ev(g.test):
+                    return True
+            except NotConst as e:
+                raise AnalysisError('_dis: rejection guard `%s` is outside the evaluable subset: %s' % (u(g.test)[:60], e))
+        return False
+
+    def dis_digit_reg_rejected(self, modifs, dibs, name='', opc=(0,)):
         """Does the /digit branch of _dis return None for a register (mod == 3) r/m operand of this row variant?
         The guards `if <cond>: return None` of that branch are evaluated with modr = {ad: False}."""
         from .srcmodel import walk_no_nested
@@ -455,6 +488,8 @@ class X86Model(object):
         m_ = Obj('m')
         m_.modifs = dict(modifs)
         m_.rm = list(dibs)
+        m_.name = name
+        m_.opc = list(opc)
         scope = dict(self.env)
         scope.update({'m': m_, 'dibs': list(dibs), 'modr': {afs.ad: False}, 'x86_afs': afs})
         ev = Evaluator(scope)
